@@ -36,7 +36,8 @@ func c12Data(t *rapid.T) (bq.Dataset, bq.Universe) {
 	u := bq.DefaultUniverse()
 	u.Nodes = u.Nodes[:5]
 	u.PredIDs = u.PredIDs[:3]
-	u.Lits = []model.LitSpec{{Kind: "int64", I: 1}, {Kind: "int64", I: -5}, {Kind: "int64", I: -20}, {Kind: "int64", I: 20}, {Kind: "int64", I: 3}, {Kind: "int64", I: 100}, {Kind: "int64", I: -1},
+	// the last int64 values are neighbours beyond 2^53: they differ as integers but not as float64
+	u.Lits = []model.LitSpec{{Kind: "int64", I: 1}, {Kind: "int64", I: -5}, {Kind: "int64", I: -20}, {Kind: "int64", I: 20}, {Kind: "int64", I: 1700000000000000001}, {Kind: "int64", I: 1700000000000000002}, {Kind: "int64", I: -9007199254740993},
 		{Kind: "float64", F: 0x3ff8000000000000}, {Kind: "float64", F: 0xc002000000000000}, {Kind: "float64", F: 0x4024000000000000}, {Kind: "float64", F: 0x3ff000001ad7f29b}, {Kind: "float64", F: 0x3ff0000035afe535}, {Kind: "float64", F: 0x46c3b8b5b5056e17}, {Kind: "float64", F: 0xbfe0000000000000},
 		{Kind: "text", S: "x"}, {Kind: "text", S: "model s"}, {Kind: "text", S: "a"}, {Kind: "text", S: "B"}, {Kind: "text", S: "a!"}}
 	d := bq.Dataset{}
